@@ -174,7 +174,8 @@ def reactor_case(draw):
         multi['multi_P'] = [draw(st.floats(0.5, 5)) for _ in range(draw(st.integers(1, 3)))]
     if draw(st.integers(0, 3)) == 0:
         multi['multi_flow_rate'] = [draw(st.floats(0.5, 50)) for _ in range(draw(st.integers(1, 3)))]
-    return {'units': units, 'opts': opts, 'multi': multi, 'with_phases': draw(st.sampled_from(['list', 'list', 'none', 'dict']))}
+    return {'units': units, 'opts': opts, 'multi': multi, 'with_phases': draw(st.sampled_from(['list', 'list', 'none', 'dict'])),
+            'misc': draw(st.booleans())}
 
 
 def _pyval(o):
@@ -210,6 +211,9 @@ def check_reactor(case, ctx):
     ctx.label('units:%s' % ('given' if units else 'none'), 'phases:' + case['with_phases'])
     for f in sorted(forms):
         ctx.label('form:' + f)
+    misc = {'my_section': {'answer': 42}} if case.get('misc') else None
+    if misc is not None:
+        kwargs['misc'] = misc
     try:
         txt = write_yaml(units=units, **kwargs)
     except Exception as e:
@@ -303,8 +307,14 @@ def check_reactor(case, ctx):
                     (utpl and m.group(2).strip() != (utpl.format(**udict) if units is not None else '')):
                 ctx.fail('C07.reactor/value-or-unit:list', '%s: %r vs %r' % (name, g_, w_))
                 break
+    if misc is not None and misc != {'my_section': {'answer': 42}}:
+        ctx.fail('C07.reactor/callers-misc-dictionary-modified', repr(sorted(misc)))
     # ... and nothing else: every leaf of the document is accounted for by a supplied option
     allowed = set()
+    if misc is not None:
+        allowed.add('my_section/answer')
+        if lookup('my_section', 'answer') != 42:
+            ctx.fail('C07.reactor/supplied-option-missing:misc', repr(doc.get('my_section')))
     for name in case['opts']:
         sec, key = (DIM_OPTS.get(name) or PLAIN_OPTS[name])[:2]
         allowed.add('%s/%s' % (sec, key))
@@ -393,7 +403,7 @@ def model_case(draw):
                  'ts': ts, 'bep': draw(st.integers(0, max(0, nbep - 1))), 'stick': None,
                  'beta': draw(st.sampled_from([None, 1.0, 0.5])),
                  # user-supplied rate parameters override the computed ones (Ea documented in kcal/mol)
-                 'Ea_user': draw(st.one_of(st.none(), st.none(), st.floats(0.5, 60))),
+                 'Ea_user': draw(st.one_of(st.none(), st.none(), st.just(0.0), st.floats(0.0, 60))),
                  'A_user': draw(st.one_of(st.none(), st.none(), gen.logf(1e8, 1e22)))}
         if id_mode == 'user' or (id_mode == 'mixed' and draw(st.booleans())):
             r['id'] = 'r_%04d' % (100 + m)
